@@ -54,6 +54,7 @@ class VA:
     a: int = 0
     b: int = 0
     w: Optional[int] = None
+    label: str = ""
     one: Optional[VA] = None
     other: Optional[VC] = None
     many: List[VC] = field(default_factory=list)
